@@ -534,7 +534,7 @@ func timerCfg(repo string) (perArm, stopCloses, recheck, capture bool) {
 }
 
 // ---- ws/websocket.go: design facts of the adapter
-func wsCfg(repo string) (pumpClosesQueue, writeSelectsClose, shutdownAlways, reportIfFirst, farewellInsideOnce, readerRechecks bool) {
+func wsCfg(repo string) (pumpClosesQueue, writeSelectsClose, shutdownAlways, reportIfFirst, farewellInsideOnce, readerRechecks, writeWaits bool) {
 	f := parse(repo, "ws/websocket.go")
 	// any close(…shipWriteChannel) in the file
 	ast.Inspect(f, func(x ast.Node) bool {
@@ -563,6 +563,9 @@ func wsCfg(repo string) (pumpClosesQueue, writeSelectsClose, shutdownAlways, rep
 				}
 			}
 			writeSelectsClose = hasSend && hasClose
+			// no other way out of the select: exactly these two clauses (a default or timer clause would let a
+			// Write on an open connection give up and the message be lost)
+			writeWaits = hasSend && hasClose && len(ss.Body.List) == 2
 			return false
 		})
 	}
@@ -880,8 +883,8 @@ func main() {
 		files["TimerFacts.lean"] = fmt.Sprintf("/- GENERATED by /verif/extract from /repo — do not edit. -/\nimport ShipVerif.Model.Timer\nnamespace ShipVerif.Generated\n\n/-- ship/handshake.go setHandshakeTimer / stopHandshakeTimer: design facts -/\ndef timerCfg : ShipVerif.Timer.Cfg := { perArmChannel := %v, stopCloses := %v, recheck := %v, captureAtArm := %v }\n\nend ShipVerif.Generated\n", a, b, c, d)
 	}
 	{
-		a, b, c, d, e, g := wsCfg(*repo)
-		files["WsFacts.lean"] = fmt.Sprintf("/- GENERATED by /verif/extract from /repo — do not edit. -/\nimport ShipVerif.Model.Ws\nnamespace ShipVerif.Generated\n\n/-- ws/websocket.go: design facts -/\ndef wsCfg : ShipVerif.Ws.Cfg := { pumpClosesQueue := %v, writeSelectsClose := %v, shutdownAlways := %v, reportIfFirst := %v, farewellInsideOnce := %v, readerRechecks := %v }\n\nend ShipVerif.Generated\n", a, b, c, d, e, g)
+		a, b, c, d, e, g, ww := wsCfg(*repo)
+		files["WsFacts.lean"] = fmt.Sprintf("/- GENERATED by /verif/extract from /repo — do not edit. -/\nimport ShipVerif.Model.Ws\nnamespace ShipVerif.Generated\n\n/-- ws/websocket.go: design facts -/\ndef wsCfg : ShipVerif.Ws.Cfg := { pumpClosesQueue := %v, writeSelectsClose := %v, shutdownAlways := %v, reportIfFirst := %v, farewellInsideOnce := %v, readerRechecks := %v, writeWaits := %v }\n\nend ShipVerif.Generated\n", a, b, c, d, e, g, ww)
 	}
 	{
 		a, b := avahiCfg(*repo)
